@@ -1497,6 +1497,16 @@ void ArrayManager::setMultidimensionalArrayElement(
             "Cannot set string array element with integer value");
     }
 
+    // 型範囲チェック（1次元配列の要素代入と同じ規則。ポインタ配列はスキップ）
+    if (base_type != TYPE_POINTER && !var.is_pointer && interpreter_) {
+        std::string range_name = interpreter_->find_variable_name(&var);
+        if (range_name.empty()) {
+            range_name = "<anonymous array>";
+        }
+        interpreter_->get_type_manager()->check_type_range(
+            base_type, adjusted_value, range_name, var.is_unsigned);
+    }
+
     size_t storage_size = get_numeric_storage_size(var, true, base_type);
     if (static_cast<size_t>(flat_index) >= storage_size) {
         throw std::runtime_error("Array index out of bounds");
